@@ -15,7 +15,7 @@ CHECK = {
     "manifest": {
         "engine": "ENUM",
         "technique": "bounded-exhaustive enumeration against a reference model (size arithmetic of a length-delimited field; truth table accepted<=limit / resource_exhausted>limit)",
-        "text": "(a) expandRequestData directly and through parseTestSuites+newTestCaseLibrary for 5 request types x 8 contents x stream position x every offset in windows round 0, round each varint boundary of the padding length (2^7, 2^14, 2^21; 2^28 thorough), round the unpadded size, plus -limit-1/-limit/MinInt32/MaxInt32 and a complete sweep of all small targets: result size == limit+offset exactly with nothing but request_data changed, or an error exactly when the size model says no padding length reaches the target; plus test cases with SEVERAL directives: client-stream and bidi streams of 2 and 3 request messages, each message independently unmarked / marked and needing padding (offset 0, +1, -1) / marked and already exactly limit+offset bytes long before expansion / marked and one byte too long (8^2+8^3 assignments per type, streams of 2 also through the suite path, trailing unmarked messages also with a shorter expand_requests list): every marked request must end up at exactly limit+offset, every unmarked one unchanged, no error. (b) the real reference server with a small receive limit receives, from the real reference client, messages of encoded size limit-1/limit/limit+1 (compressible and incompressible padding) for unary, idempotent-unary (GET with the message in the URL under Connect, POST under gRPC / gRPC-Web), client-stream, half- and full-duplex bidi x 6 compressions x Connect/gRPC/gRPC-Web x HTTP/1.1/h2c x proto/JSON; and the real reference client with a receive limit of size-1/size/size+1 receives responses from the real reference server for all five stream shapes: accepted iff uncompressed size <= limit, otherwise resource_exhausted.",
+        "text": "(a) expandRequestData directly and through parseTestSuites+newTestCaseLibrary for 5 request types x 8 contents x stream position x every offset in windows round 0, round each varint boundary of the padding length (2^7, 2^14, 2^21; 2^28 thorough), round the unpadded size, plus -limit-1/-limit/MinInt32/MaxInt32 and a complete sweep of all small targets: result size == limit+offset exactly with nothing but request_data changed, or an error exactly when the size model says no padding length reaches the target; plus test cases with SEVERAL directives: client-stream and bidi streams of 2 and 3 request messages, each message independently unmarked / marked and needing padding (offset 0, +1, -1) / marked and already exactly limit+offset bytes long before expansion / marked and one byte too long (8^2+8^3 assignments per type, streams of 2 also through the suite path, trailing unmarked messages also with a shorter expand_requests list): every marked request must end up at exactly limit+offset, every unmarked one unchanged, no error; plus the suite path under every other combination of suite-level directives (relies_on_message_receive_limit set / not set x mode server / client / unspecified x {none, relies_on_tls, + client certs, relies_on_connect_get, connect_version_mode require / ignore, relevant protocols / HTTP versions / compressions left empty}, 53 combinations x 5 types x 2 contents x offsets {0, +1, -1, -1000, first unreachable size, -limit-1}): expanded exactly or the suite rejected, whatever the other directives say. (b) the real reference server with a small receive limit receives, from the real reference client, messages of encoded size limit-1/limit/limit+1 (compressible and incompressible padding) for unary, idempotent-unary (GET with the message in the URL under Connect, POST under gRPC / gRPC-Web), client-stream, half- and full-duplex bidi x 6 compressions x Connect/gRPC/gRPC-Web x HTTP/1.1/h2c x proto/JSON; and the real reference client with a receive limit of size-1/size/size+1 receives responses from the real reference server for all five stream shapes: accepted iff uncompressed size <= limit, otherwise resource_exhausted; and a plain net/http client (HTTP/1.1 and h2c) sends hand-built Connect-streaming and gRPC-Web request streams (client-stream, half-duplex bidi) of 2 and 3 messages, every message one of {a few bytes, limit-1, limit} and the last one also limit+1 (48 streams), with and without a declared Content-Length: the limit is per message, so the stream is accepted with every request echoed iff no message exceeds the limit.",
         "note": "Limit constant of the runner is fixed (200 KiB); in-process peers over loopback instead of OS processes; TLS and HTTP/3 not exercised; JSON sizes taken from the same codec.",
         "design_ref": "DESIGN.md §2.2, §4 C19",
     },
